@@ -42,7 +42,7 @@ inline void build(Tape &t, Built &b, size_t cap = 150000, bool small_only = fals
 		dgen::Params p;
 		p.allow_big = !small_only && t.range(0, 3) != 0;
 		if (small_only) p.soft_max_out = cap;
-		p.max_dist = IGZIP_HIST_SIZE; // the build's window (32 KiB by default, 8 KiB in the hist8k configuration)
+		p.max_dist = ISAL_DEF_HIST_SIZE; // the decoder supports the full 32 KiB window in every build configuration (IGZIP_HIST_SIZE only limits the compressor)
 		dgen::Stream s;
 		dgen::generate(t, p, s);
 		defl = s.bytes; b.data = s.data; b.labels = s.labels; b.src = "grammar";
@@ -55,9 +55,7 @@ inline void build(Tape &t, Built &b, size_t cap = 150000, bool small_only = fals
 			igz::ZDefOpts zo;
 			zo.level = (int) t.range(0, 9);
 			zo.strategy = (int) t.pick<uint32_t>({Z_DEFAULT_STRATEGY, Z_FILTERED, Z_HUFFMAN_ONLY, Z_RLE, Z_FIXED});
-			int maxw = 15;
-			while ((1u << maxw) > IGZIP_HIST_SIZE) maxw--;
-			zo.wbits = -(int) t.range(9, maxw);
+			zo.wbits = -(int) t.range(9, 15);
 			zo.memlevel = (int) t.range(1, 9);
 			int nf = (int) t.range(0, 3);
 			for (int i = 0; i < nf; i++) zo.flushes.push_back({(size_t) t.spread(0, b.data.size()), (int) t.pick<uint32_t>({Z_SYNC_FLUSH, Z_FULL_FLUSH, Z_BLOCK, Z_PARTIAL_FLUSH})});
